@@ -8,7 +8,7 @@ from ..cfg import NORMAL, Node
 from ..core import Ctx
 from ..flow import ALL, find_path, names_in
 from ..model import AnalysisError, FunctionInfo, dotted, norm_text
-from .common import EnumVal, FnRef, explore, null_edges, owner_tops, resolve_value, str_consts, walk_all, edge_target, kwarg, reachable_from
+from .common import facts_at, EnumVal, FnRef, explore, null_edges, owner_tops, resolve_value, str_consts, walk_all, edge_target, kwarg, reachable_from
 
 EXPLANATION = (
     "Static analysis of filters.py and the scan APIs: (R1) the operator tables agree and are exhaustive (enum members = handler "
@@ -22,7 +22,8 @@ EXPLANATION = (
     "and projection follows the filter; (R5) between = GE lo AND LE hi; conjunction is an &-fold."
     " Also: (R6-R10) the pruning decision, the bound codec and the bounds' attachment (shared with C13) - every scan API prunes before it filters."
     " (R11) each operator handler has its SQL meaning on non-NULL rows: the handler expression is interpreted row-wise over a small ordered domain and compared with the operator's predicate."
-    " (R12) the read path keeps no memo (C02.R6: instance, class and module-level state); (R13) one filter engine: FilterOp is interpreted only in the engine's module and every parsed filter feeds to_pyarrow_compute_expression.")
+    " (R12) the read path keeps no memo (C02.R6: instance, class and module-level state); (R13) one filter engine: FilterOp is interpreted only in the engine's module and every parsed filter feeds to_pyarrow_compute_expression."
+    " (R17) no Parquet read is given filters= (statistics pushdown drops NaN rows for !=) [D19, fixed]; (R18) is_in is reached only for value sets without float literals - float members compare with == terms [D20, fixed]. R11's row-wise interpreter handles loops, any / isinstance, list indexing and module-level helpers.")
 NOT_DECIDED = ("Arrow kernel semantics (NaN, numeric coercion, pushdown == manual filter); multiset equality across APIs and "
                "batch sizes at run time")
 ASSUMPTIONS = ["Arrow: comparison with a NULL operand yields NULL; is_in(NULL, set without NULL) is False; Kleene and/invert; "
@@ -61,6 +62,72 @@ def check(ctx: Ctx) -> None:
     from .c02 import r6 as c02_r6
     ctx.shared(c02_r6, "C02.R6", "C12.R12", "a remembered schema maps a filter column to another column's bounds after the table "
                "is re-created at the same location")
+    no_statistics_pushdown(ctx)
+    membership_compares_like_equality(ctx)
+
+
+def no_statistics_pushdown(ctx: Ctx, rid: str = "C12.R17") -> None:
+    ctx.rule(rid, "the predicate is applied to decoded rows, never handed to the Parquet reader: no pq.read_table / ParquetFile / "
+             "dataset call of the package is given `filters=` / `filter=` - pyarrow prunes row groups by min/max statistics, "
+             "which exclude NaN, so `x != v` on a row group with min == max == v is dropped although its NaN rows satisfy it (and "
+             "the verified path, which filters after decoding, answers differently)", 1)
+    n = 0
+    readers = ("read_table", "read_pandas", "ParquetFile", "ParquetDataset", "dataset", "read", "read_row_group", "read_row_groups",
+               "iter_batches", "to_table", "scanner", "to_batches")
+    for f in sorted(ctx.prog.functions.values(), key=lambda x: x.qname):
+        if isinstance(f.node, ast.Lambda):
+            continue
+        g = ctx.cfg(f)
+        for c in g.calls():
+            if not isinstance(c.ast, ast.Call) or c.id not in g.reachable():
+                continue
+            leaf = (dotted(c.ast.func) or (c.ast.func.attr if isinstance(c.ast.func, ast.Attribute) else "")).split(".")[-1]
+            if leaf not in readers:
+                continue
+            recv = norm_text(c.ast.func.value) if isinstance(c.ast.func, ast.Attribute) else ""
+            if leaf in ("read", "dataset", "scanner") and not any(w in recv for w in ("pq", "pf", "parquet", "ds", "dataset")):
+                continue
+            if leaf in ("read_table", "ParquetFile", "ParquetDataset", "iter_batches", "to_table", "to_batches", "read_row_group", "read_row_groups", "read_pandas") \
+                    or any(w in recv for w in ("pq", "parquet")):
+                n += 1
+                push = [k.arg for k in c.ast.keywords if k.arg in ("filters", "filter")]
+                ctx.ob(rid, f, "Parquet read without a pushed-down predicate", c, not push,
+                       "rows are decoded first and filtered by Table.filter / RecordBatch.filter" if not push else
+                       f"`{push[0]}=` hands the predicate to pyarrow's row-group statistics pruning: `!=` (and NaN-sensitive comparisons) "
+                       "lose rows that the post-decoding filter of the other read paths keeps "
+                       "(repro: /verif/repro/repro_ne_pushdown.py) [D19]")
+    if n == 0:
+        raise AnalysisError("no Parquet read found in the package")
+
+
+def membership_compares_like_equality(ctx: Ctx, rid: str = "C12.R18") -> None:
+    ctx.rule(rid, "`x IN (v, ...)` is `x = v OR ...`: pc.is_in casts the value set to the COLUMN's type (0.1 -> 0.1f on a float32 "
+             "column) while `==` compares in double precision and file pruning compares the literal with the bounds - so is_in is "
+             "applied only to value sets without float literals (a guard on `isinstance(v, float)` dominates it); float members are "
+             "compared with `==` terms", 1)
+    n = 0
+    for f in sorted(ctx.prog.functions.values(), key=lambda x: x.qname):
+        if isinstance(f.node, ast.Lambda) or f.module.short != "filters":
+            continue
+        g = ctx.cfg(f)
+        for c in g.calls():
+            if not isinstance(c.ast, ast.Call) or c.id not in g.reachable():
+                continue
+            leaf = (dotted(c.ast.func) or (c.ast.func.attr if isinstance(c.ast.func, ast.Attribute) else "")).split(".")[-1]
+            if leaf not in ("is_in", "isin", "index_in"):
+                continue
+            n += 1
+            guarded = any(pol == "false" and "isinstance" in norm_text(e) and "float" in norm_text(e) for pol, e, _a in facts_at(ctx, f, c))
+            typed = kwarg(c.ast, "value_set") is not None and isinstance(kwarg(c.ast, "value_set"), ast.Call) and \
+                kwarg(kwarg(c.ast, "value_set"), "type") is not None and "float64" in norm_text(kwarg(kwarg(c.ast, "value_set"), "type"))
+            ctx.ob(rid, f, "is_in never sees a float literal", c, guarded,
+                   "reached only when no member of the value set is a Python float" if guarded else
+                   "pc.is_in casts a float value set to the column type: on a float32 column `x IN (0.1)` matches 0.1f although "
+                   "`x == 0.1` does not, and pruning (which compares 0.1 with the bounds) drops the file - the answer depends on "
+                   "pruning (repro: /verif/repro/repro_float_membership.py) [D20]" + (" (typed value set noted)" if typed else ""))
+    if n == 0:
+        # no is_in at all: membership is built from equality terms - nothing to guard
+        ctx.ob(rid, ctx.fn("filters._build_condition"), "membership is built without is_in", None, True, "only `==` terms", nontrivial=False)
 
 
 def single_filter_engine(ctx: Ctx, rid: str = "C12.R13") -> None:
@@ -394,6 +461,10 @@ def _cval(e: ast.AST, env: Dict[str, object], fld: str, exprn: str) -> object:
         fn_ = env.get("@fn")
         if fn_ is not None and e.id in fn_.nested:
             return ("fn", fn_.nested[e.id])
+        if fn_ is not None and env.get("@ctx") is not None:
+            mf = env["@ctx"].prog.functions.get(f"{fn_.module.name}.{e.id}")  # type: ignore[union-attr]
+            if mf is not None:
+                return ("fn", mf)  # a module-level helper of the same module
         if fn_ is not None and isinstance(fn_.module.consts.get(e.id), ast.Dict):
             return ("dict", fn_.module.consts[e.id])
         raise _NoEval(e.id)
@@ -420,6 +491,16 @@ def _cval(e: ast.AST, env: Dict[str, object], fld: str, exprn: str) -> object:
                 if k is not None and _cval(k, env, fld, exprn) == key:
                     return _cval(v, env, fld, exprn)
             raise _NoEval("missing key")
+        if isinstance(base, list):
+            if isinstance(e.slice, ast.Slice):
+                lo = _cval(e.slice.lower, env, fld, exprn) if e.slice.lower is not None else None
+                hi = _cval(e.slice.upper, env, fld, exprn) if e.slice.upper is not None else None
+                st = _cval(e.slice.step, env, fld, exprn) if e.slice.step is not None else None
+                return base[lo:hi:st]  # type: ignore[misc]
+            i = _cval(e.slice, env, fld, exprn)
+            if isinstance(i, int) and not isinstance(i, bool) and -len(base) <= i < len(base):
+                return base[i]
+            raise _NoEval("index out of range")
         raise _NoEval("subscript")
     if isinstance(e, ast.Compare) and len(e.ops) == 1:
         a, b = _cval(e.left, env, fld, exprn), _cval(e.comparators[0], env, fld, exprn)
@@ -461,6 +542,18 @@ def _cval(e: ast.AST, env: Dict[str, object], fld: str, exprn: str) -> object:
                 if k is not None and _cval(k, env, fld, exprn) == key:
                     return _cval(v, env, fld, exprn)
             return _cval(e.args[1], env, fld, exprn) if len(e.args) > 1 else None
+    if isinstance(e, ast.Call) and isinstance(e.func, ast.Name) and e.func.id in ("any", "all") and len(e.args) == 1 and not e.keywords:
+        seq = _cval(e.args[0], env, fld, exprn)
+        if not isinstance(seq, list):
+            raise _NoEval(e.func.id + " of a non-list")
+        return any(bool(x) for x in seq) if e.func.id == "any" else all(bool(x) for x in seq)
+    if isinstance(e, ast.Call) and isinstance(e.func, ast.Name) and e.func.id == "isinstance" and len(e.args) == 2:
+        v_ = _cval(e.args[0], env, fld, exprn)
+        names = [dotted(t) for t in (e.args[1].elts if isinstance(e.args[1], ast.Tuple) else [e.args[1]])]
+        py = {"float": float, "int": int, "str": str, "bool": bool, "bytes": bytes, "list": list, "tuple": tuple}
+        if not all(nm in py for nm in names):
+            raise _NoEval("isinstance " + str(names))
+        return isinstance(v_, tuple(py[nm] for nm in names))  # type: ignore[arg-type]
     if isinstance(e, ast.Call) and isinstance(e.func, ast.Name) and e.func.id not in ("len", "bool", "list", "set", "tuple", "frozenset"):
         try:
             fv = _cval(e.func, env, fld, exprn)
@@ -474,7 +567,9 @@ def _cval(e: ast.AST, env: Dict[str, object], fld: str, exprn: str) -> object:
         if isinstance(fv, tuple) and fv and fv[0] == "pyop":
             return fv[1](*[_cval(x, env, fld, exprn) for x in e.args])
         if isinstance(fv, tuple) and fv and fv[0] == "fn":
-            return _run_handler(env["@ctx"], env["@fn"], ast.Name(id=fv[1].name, ctx=ast.Load()), env, fld, exprn)
+            sub = dict(env)
+            sub.update({p_.name: _cval(x, env, fld, exprn) for p_, x in zip(fv[1].params, e.args)})
+            return _run_handler(env["@ctx"], env["@fn"], ast.Name(id=fv[1].name, ctx=ast.Load()), sub, fld, exprn)
     if isinstance(e, ast.Call):
         fn = dotted(e.func) or ""
         leaf = fn.split(".")[-1]
@@ -515,8 +610,8 @@ def _run_handler(ctx: Ctx, f: FunctionInfo, v: ast.AST, env: Dict[str, object], 
     """Value of one handler (a lambda, or a nested function interpreted over its CFG) for one row / literal."""
     if isinstance(v, ast.Lambda):
         return _cval(v.body, env, fld, exprn)
-    if isinstance(v, ast.Name) and v.id in f.nested:
-        nf = f.nested[v.id]
+    if isinstance(v, ast.Name) and (v.id in f.nested or ctx.prog.functions.get(f"{f.module.name}.{v.id}") is not None):
+        nf = f.nested[v.id] if v.id in f.nested else ctx.prog.functions[f"{f.module.name}.{v.id}"]
         g = ctx.cfg(nf)
         cur: Optional[int] = g.entry
         envl = dict(env)
@@ -530,6 +625,22 @@ def _run_handler(ctx: Ctx, f: FunctionInfo, v: ast.AST, env: Dict[str, object], 
                 raise _NoEval("raise")
             if n.kind == "branch" and n.ast is not None:
                 cur = edge_target(g, n, "true" if _cval(n.ast, envl, fld, exprn) else "false")
+                continue
+            if n.kind == "loop" and isinstance(n.ast, ast.For) and isinstance(n.ast.target, ast.Name):
+                # `for v in <list>`: the list is evaluated on entry, one element per visit
+                key = f"@iter{n.id}"
+                if key not in envl:
+                    seq = _cval(n.ast.iter, envl, fld, exprn)
+                    if not isinstance(seq, list):
+                        raise _NoEval("loop over a non-list")
+                    envl[key] = list(seq)
+                rest = envl[key]
+                if rest:  # type: ignore[truthy-bool]
+                    envl[n.ast.target.id] = rest.pop(0)  # type: ignore[attr-defined]
+                    cur = edge_target(g, n, "true")
+                else:
+                    del envl[key]
+                    cur = edge_target(g, n, "false")
                 continue
             if n.kind == "stmt" and isinstance(n.ast, ast.Assign) and len(n.ast.targets) == 1 and isinstance(n.ast.targets[0], ast.Name):
                 envl[n.ast.targets[0].id] = _cval(n.ast.value, envl, fld, exprn)
@@ -568,6 +679,21 @@ def _run_build_condition(ctx: Ctx, f: FunctionInfo, op: str, x: object, lit: obj
         if n.kind == "branch" and n.ast is not None:
             cur = edge_target(g, n, "true" if val(n.ast) else "false")
             continue
+        if n.kind == "loop" and isinstance(n.ast, ast.For) and isinstance(n.ast.target, ast.Name):
+            key = f"@iter{n.id}"
+            if key not in env:
+                seq = val(n.ast.iter)
+                if not isinstance(seq, list):
+                    raise _NoEval("loop over a non-list")
+                env[key] = list(seq)
+            rest = env[key]
+            if rest:  # type: ignore[truthy-bool]
+                env[n.ast.target.id] = rest.pop(0)  # type: ignore[attr-defined]
+                cur = edge_target(g, n, "true")
+            else:
+                del env[key]
+                cur = edge_target(g, n, "false")
+            continue
         if n.kind == "stmt" and isinstance(n.ast, ast.Return) and cur in ret_call:
             rets[ret_call[cur]] = val(n.ast.value)
         elif n.kind == "stmt" and isinstance(n.ast, ast.Assign) and len(n.ast.targets) == 1 and isinstance(n.ast.targets[0], ast.Name):
@@ -587,7 +713,7 @@ def r11(ctx: Ctx) -> None:
     dom = (0, 1, 2)
     for op in enum_members(ctx):
         if op in ("IN", "NOT_IN"):
-            lits: List[object] = [[], [0], [1, 2], [0, None], [None], [2, 2]]
+            lits: List[object] = [[], [0], [1, 2], [0, None], [None], [2, 2], [0.0], [1.0, 2.0], [0.5, None], [2, 0.5]]
             want = (lambda x, lit: x in [y for y in lit if y is not None]) if op == "IN" else \
                 (lambda x, lit: x not in [y for y in lit if y is not None])
         elif op == "IS_NULL":
@@ -649,6 +775,23 @@ def r3(ctx: Ctx) -> None:
             src = norm_text(vs) if vs is not None else ""
             filt = [n for n in ast.walk(nf.node) if isinstance(n, ast.ListComp) and any("is not None" in norm_text(i) for gen in n.generators for i in gen.ifs)]
             uses = any(isinstance(t, ast.Name) and t.id in src for n in ast.walk(nf.node) if isinstance(n, ast.Assign) and n.value in filt for t in n.targets)
+            pnames = [p_.name for p_ in nf.params]
+            if not uses and any(pn in src for pn in pnames):
+                # the value set is the helper's parameter (`_matches_any(values)`): every caller hands it a list built by a
+                # comprehension that filters `is not None`
+                verdicts = []
+                for caller in f.nested.values():
+                    if caller is nf:
+                        continue
+                    cfilt = [n for n in ast.walk(caller.node) if isinstance(n, ast.ListComp)
+                             and any("is not None" in norm_text(i) for gen in n.generators for i in gen.ifs)]
+                    good = {t.id for n in ast.walk(caller.node) if isinstance(n, ast.Assign) and n.value in cfilt for t in n.targets if isinstance(t, ast.Name)}
+                    for call in [n for n in ast.walk(caller.node) if isinstance(n, ast.Call) and isinstance(n.func, ast.Name) and n.func.id == nf.name]:
+                        for pn, a in zip(pnames, call.args):
+                            if pn in src:
+                                verdicts.append(isinstance(a, ast.Name) and a.id in good)
+                if verdicts and all(verdicts):
+                    filt, uses = [True], True  # type: ignore[list-item]
             ctx.ob("C12.R3", nf, "is_in value set excludes NULL", None, bool(filt) and uses,
                    f"value_set `{src}` is built from a comprehension filtering `is not None`", text=nf.name)
 
